@@ -1907,20 +1907,34 @@ class JobsCursor:
                 "when grouping by a (list of) string key(s)."
             )
 
-        def _strip_prefix(key):
-            """Strip the prefix, if it is present.
+        _missing = object()
 
-            Implicit and explicit sp prefixes are equivalent and can be treated
-            identically for this purpose.
+        def _split_key(key):
+            """Split a (possibly nested) key into its namespace and its nodes.
+
+            Implicit and explicit sp prefixes are equivalent. Only a leading
+            ``sp`` or ``doc`` is a prefix: ``"a.b"`` is the nested state point
+            key ``a`` -> ``b``.
             """
-            return key.split(".", 1)[-1]
+            nodes = key.split(".")
+            if len(nodes) > 1 and nodes[0] in ("sp", "doc"):
+                return nodes[0] == "doc", nodes[1:]
+            return False, nodes
 
-        def _is_doc_key(key):
-            """Check if a key is a document key."""
-            return "." in key and key.split(".", 1)[0] == "doc"
+        def _lookup(job, is_doc_key, nodes, default=_missing):
+            """Get the (nested) value from the job's document or state point."""
+            value = job.document if is_doc_key else job.cached_statepoint
+            try:
+                for node in nodes:
+                    value = value[node]
+            except (KeyError, TypeError):
+                if default is _missing:
+                    raise KeyError(".".join(nodes))
+                return default
+            return value
 
         if isinstance(key, str):
-            stripped_key = _strip_prefix(key)
+            is_doc_key, nodes = _split_key(key)
 
             if default is None:
                 if _filter is None:
@@ -1928,35 +1942,17 @@ class JobsCursor:
                 else:
                     _filter = {"$and": [{key: {"$exists": True}}, _filter]}
 
-                if _is_doc_key(key):
-
-                    def keyfunction(job):
-                        return job.document[stripped_key]
-
-                else:
-
-                    def keyfunction(job):
-                        return job.cached_statepoint[stripped_key]
+                def keyfunction(job):
+                    return _lookup(job, is_doc_key, nodes)
 
             else:
-                if _is_doc_key(key):
 
-                    def keyfunction(job):
-                        return job.document.get(stripped_key, default)
-
-                else:
-
-                    def keyfunction(job):
-                        return job.cached_statepoint.get(stripped_key, default)
+                def keyfunction(job):
+                    return _lookup(job, is_doc_key, nodes, default)
 
         elif isinstance(key, Iterable):
-            sp_keys = []
-            doc_keys = []
-            for k in key:
-                if _is_doc_key(k):
-                    doc_keys.append(_strip_prefix(k))
-                else:
-                    sp_keys.append(_strip_prefix(k))
+            key = list(key)
+            split_keys = [_split_key(k) for k in key]
 
             if default is None:
                 if _filter is None:
@@ -1965,17 +1961,18 @@ class JobsCursor:
                     _filter = {"$and": [{k: {"$exists": True} for k in key}, _filter]}
 
                 def keyfunction(job):
+                    # The label lists the values in the order of the keys.
                     return tuple(
-                        [job.cached_statepoint[k] for k in sp_keys]
-                        + [job.document[k] for k in doc_keys]
+                        _lookup(job, is_doc_key, nodes)
+                        for is_doc_key, nodes in split_keys
                     )
 
             else:
 
                 def keyfunction(job):
                     return tuple(
-                        [job.cached_statepoint.get(k, default) for k in sp_keys]
-                        + [job.document.get(k, default) for k in doc_keys]
+                        _lookup(job, is_doc_key, nodes, default)
+                        for is_doc_key, nodes in split_keys
                     )
 
         elif key is None:
